@@ -34,7 +34,28 @@ impl<'a, 't> From<&'a Token<'t>> for Location {
     fn from(t: &'a Token<'t>) -> (r: Location) { unimplemented!() }
 }
 /// parts of a syntax error message (contents are not the subject of any property here)
-#[verifier::external_body] pub struct UnexpectedToken { _x: u8 }
+/// the part of UnexpectedToken that handle_prediction_error reads (the real struct also holds two Strings)
+pub struct UnexpectedToken { pub token: Location, pub rest: UnexpectedRest }
+#[verifier::external_body] pub struct UnexpectedRest { _x: u8 }
+impl Clone for Location {
+    #[verifier::external_body]
+    fn clone(&self) -> (r: Self) { unimplemented!() }
+}
+/// std's Option::map_or (not specified by the installed vstd): the default for None, else the closure's result
+pub assume_specification<T, U, F: FnOnce(T) -> U>[ Option::<T>::map_or ](o: Option<T>, default: U, f: F) -> (r: U)
+    requires o is Some ==> f.requires((o->Some_0,)),
+    ensures o is None ==> r == default, o is Some ==> f.ensures((o->Some_0,), r);
+impl Default for Location {
+    #[verifier::external_body]
+    fn default() -> (r: Self) { unimplemented!() }
+}
+impl LookaheadDFA {
+    /// builds the parts of a prediction error message from the buffered lookahead (iterator code; its body never returns Err)
+    #[verifier::external_body]
+    pub fn build_error<'t, F>(&self, terminal_names: &'static [&'static str], token_stream: &TokenStream<'t, F>) -> (r: std::result::Result<(String, Vec<UnexpectedToken>, TokenVec), LexerError>)
+        ensures r is Ok
+    { unimplemented!() }
+}
 impl UnexpectedToken {
     #[verifier::external_body]
     pub fn new(name: String, token_type: String, token: &Token<'_>) -> (r: Self) { unimplemented!() }
